@@ -17,6 +17,7 @@ import Pandora.Proofs.C06Queue
 import Pandora.Proofs.C06Return
 import Pandora.Proofs.C06Pool
 import Pandora.Proofs.C06Engine
+import Pandora.Proofs.C06PoolLive
 import Pandora.Proofs.C06SinkFail
 
 namespace Pandora.Props.C06
@@ -605,6 +606,36 @@ theorem C06_pool_wait_after_aggregator (trace : List PEv) :
     exact cinv_run trace (by simp [init]) hr
   exact ⟨p.aggTaken ha, ha, hr, (p.closed hr).1, hc⟩
 
+/-- **the cancel is not forgotten** — for EVERY trace: once the start result was taken, no instance is running and
+every instance result was taken, `runRes` is closed and the end-of-run cancel has been issued: the aggregator is
+never left waiting for a cancel nobody will send (both `case`s that can complete the condition — the start result and
+an instance result — call `checkAllInstancesAreFinished`; "There is a race between run and start results"). -/
+theorem C06_pool_no_stuck (trace : List PEv) :
+    let st := run (init Gen.AggQ.engineResultsToWait) trace
+    st.startResOpen = false → st.running = 0 → st.awaitedInstances = st.finishedCount →
+      st.runResOpen = false ∧ st.cancelled = true := by
+  intro st hs hr ha
+  have hst : st = run (init 4) trace := by
+    show run (init Gen.AggQ.engineResultsToWait) trace = _
+    rw [Bridge.AggQ.results_to_wait]
+  have p : PInv st := by rw [hst]; exact pinv_run trace pinv_init
+  have k : Pandora.Proofs.C06PoolLive.KInv st := by
+    rw [hst]; exact Pandora.Proofs.C06PoolLive.kinv_run trace pinv_init (Pandora.Proofs.C06PoolLive.kinv_init 4)
+  have hclosed : st.runResOpen = false := by
+    rcases k hs with h | h
+    · exact h
+    · have := p.cnt; omega
+  refine ⟨hclosed, ?_⟩
+  rw [hst] at hclosed ⊢
+  exact cinv_run trace (by simp [init]) hclosed
+
+/-- non-vacuity, the interleaving the comment in engine.go is about: the only instance runs out of ammo and its
+result is taken BEFORE the start result; the start-result case must issue the cancel -/
+example :
+    let st := run (init 4) [.launch, .finish, .awaitInst, .startDone, .awaitStart]
+    st.startResOpen = false ∧ st.running = 0 ∧ st.awaitedInstances = st.finishedCount ∧ st.cancelled = true := by
+  decide
+
 /-- **a run that ends by itself is complete** — composition of the pool and the queue models: any pool trace
 without external cancel, any aggregator schedule that agrees with it on reports and cancel, any queue
 size and reporter programs: when `Run` has returned, sink ++ counted drops is a permutation of all Report
@@ -717,7 +748,8 @@ theorem C06_engine_contexts :
   exact ⟨h.1, h.2.2.2.2.1, h.2.2.2.2.2.2.2.1, h.2.2.2.2.2.2.2.2.1, h.2.2.2.2.2.2.2.2.2, Bridge.AggQ.instance_run_synchronous.1⟩
 
 /-- the functions of core/engine and cli between the await loop and the process exit are the ones the models of
-(iii)–(v) were written from -/
+(iii)–(v) were written from; so are phout's `handle` (sample released only after the write) and the sample pool
+(`Acquire` overwrites the whole pooled sample) -/
 theorem C06_source_shape_engine :
     Gen.AggQ.engineRun = Bridge.AggQ.engineRunExpected ∧
     Gen.AggQ.enginePoolRun = Bridge.AggQ.enginePoolRunExpected ∧
@@ -727,10 +759,15 @@ theorem C06_source_shape_engine :
     Gen.AggQ.engineRunNewInstance = Bridge.AggQ.engineRunNewInstanceExpected ∧
     Gen.AggQ.engineInstanceRun = Bridge.AggQ.engineInstanceRunExpected ∧
     Gen.AggQ.cliReadConfigAndRunEngine = Bridge.AggQ.cliReadConfigAndRunEngineExpected ∧
-    Gen.AggQ.engineRunLoopBound = Bridge.AggQ.engineRunLoopBoundExpected :=
+    Gen.AggQ.engineRunLoopBound = Bridge.AggQ.engineRunLoopBoundExpected ∧
+    Gen.AggQ.phoutHandle = Bridge.AggQ.phoutHandleExpected ∧
+    Gen.AggQ.sampleAcquire = Bridge.AggQ.sampleAcquireExpected ∧
+    Gen.AggQ.sampleRelease = Bridge.AggQ.sampleReleaseExpected ∧
+    Gen.AggQ.sampleDiscarded = Bridge.AggQ.sampleDiscardedExpected :=
   ⟨Bridge.AggQ.engineRun_eq, Bridge.AggQ.enginePoolRun_eq, Bridge.AggQ.engineRunAsync_eq,
    Bridge.AggQ.engineStartInstances_eq, Bridge.AggQ.engineOnErrAwaited_eq, Bridge.AggQ.engineRunNewInstance_eq,
-   Bridge.AggQ.engineInstanceRun_eq, Bridge.AggQ.cliReadConfigAndRunEngine_eq, Bridge.AggQ.engineRunLoopBound_eq⟩
+   Bridge.AggQ.engineInstanceRun_eq, Bridge.AggQ.cliReadConfigAndRunEngine_eq, Bridge.AggQ.engineRunLoopBound_eq,
+   Bridge.AggQ.phoutHandle_eq, Bridge.AggQ.sampleAcquire_eq, Bridge.AggQ.sampleRelease_eq, Bridge.AggQ.sampleDiscarded_eq⟩
 
 end Engine
 
